@@ -129,7 +129,7 @@ pub fn judge_case(c: &Case) -> Obs {
             }
             AsmResult::Panic { msg, loc, phase } => {
                 obs.set_fail(
-                    format!("C01:panic@{}", short_loc(&loc)),
+                    format!("C01:{}", panic_sig(&msg, &loc)),
                     format!("panic in {phase}: {msg} at {loc}\n--- source ---\n{}", r.text),
                 );
                 return obs;
@@ -141,6 +141,21 @@ pub fn judge_case(c: &Case) -> Obs {
 
 pub fn first_lines(s: &str, n: usize) -> String {
     s.lines().take(n).collect::<Vec<_>>().join("\n")
+}
+/// Root-cause signature of a panic: its site; for sites outside lace (std, dependencies) the
+/// message is part of the signature, because one site there serves many causes.
+pub fn panic_sig(msg: &str, loc: &str) -> String {
+    let site = short_loc(loc);
+    if loc.contains("/.cargo/registry/") || loc.contains("/rustc/") || loc.contains("/library/") {
+        let slug: String = msg
+            .chars()
+            .take(48)
+            .map(|c| if c.is_ascii_alphanumeric() { c.to_ascii_lowercase() } else { '-' })
+            .collect();
+        format!("panic@{site}:{}", slug.trim_matches('-'))
+    } else {
+        format!("panic@{site}")
+    }
 }
 pub fn short_loc(loc: &str) -> String {
     loc.rsplit("/src/").next().unwrap_or(loc).to_string()
